@@ -164,7 +164,8 @@ def loglik_history(prm: dict):
     fop, bop = _ops(prm["centered"], prm["normalized"], dtype)
     n_, c_, h_, w_ = prm["shape"]
     slots = [_Slot(g, prm["shape"], dtype, prm.get("coilmask", False)) for _ in range(2)]
-    blk = MRILogLikelihood(fop, bop)
+    mode = prm.get("mode", "train")
+    blk = MRILogLikelihood(fop, bop).train(mode == "train")
     base = 1.0 if prm["normalized"] else 1.0 / (h_ * w_)
     zero = torch.zeros(1, dtype=dtype)
     fails, worst = [], 0.0
@@ -181,7 +182,7 @@ def loglik_history(prm: dict):
         before = [a.clone() for a in args]
         with torch.no_grad():
             out = blk(*args, st_t)
-            fresh = MRILogLikelihood(fop, bop)(*[a.clone() for a in args], None if st_t is None else st_t.clone())
+            fresh = MRILogLikelihood(fop, bop).train(mode == "train")(*[a.clone() for a in args], None if st_t is None else st_t.clone())
         smax = float(S.abs().max()) * math.sqrt(c_)
         scale = float(ref.norm()) + base * abs(1.0 if s is None else float(s)) * smax * (float(y.norm()) + smax * float(x.norm())) * 1e-2 + 1e-12
         err = float((out - ref).norm()) / scale
@@ -219,7 +220,8 @@ def cg_history(prm: dict):
     slots = [_Slot(g, prm["shape"], dtype) for _ in range(2)]
     upd = CGUpdateType(prm["update"])
     iters = prm.get("iters", 3 * npx + 10)
-    blk = ConjGrad(fop, bop, num_iters=iters, tol=prm.get("tol", 1e-9), bk_update_type=upd)
+    mode = prm.get("mode", "train")
+    blk = ConjGrad(fop, bop, num_iters=iters, tol=prm.get("tol", 1e-9), bk_update_type=upd).train(mode == "train")
     fails, worst = [], 0.0
     for k, st in enumerate(prm["script"]):
         sl = slots[st.get("slot", 0)]
@@ -230,7 +232,8 @@ def cg_history(prm: dict):
         before = [a.clone() for a in args]
         with torch.no_grad():
             out = blk(*args)
-            fresh = ConjGrad(fop, bop, num_iters=iters, tol=prm.get("tol", 1e-9), bk_update_type=upd)(*[a.clone() for a in args])
+            fresh = ConjGrad(fop, bop, num_iters=iters, tol=prm.get("tol", 1e-9), bk_update_type=upd).train(mode == "train")(
+                *[a.clone() for a in args])
         where = f"call {k} of the history ({st or 'first call'})"
         if not _unchanged(before, args):
             fails.append(("cg-mutates-argument", f"ConjGrad modified one of its arguments in place at {where}"))
